@@ -85,15 +85,15 @@ def run_kernel(chk, name, make_env, specs, post, pre, extents=()):
         for nm, pc, cond in p.obligations:
             kind = nm.split(":")[0]
             chk.obligation(f"{fn}/{nm}/path={k}", kind if kind.startswith("inv") else "noexcept",
-                           smt_thunk(pc, cond, timeout=20, logic=None, instantiate=(2, extents)), function=fn, key=f"C02/{fn}/{nm.split('#')[0]}",
+                           smt_thunk(pc, cond, timeout=20, logic=None, instantiate=(2, extents)), function=fn, key=f"{chk.prop}/{fn}/{nm.split('#')[0]}",
                            replayer=_replay_kernel(name))
         if p.outcome == "return":
             n_post += 1
             chk.obligation(f"{fn}/post/path={k}", "post", smt_thunk(p.pc, post(p), timeout=20, logic=None, instantiate=(2, extents)), function=fn,
-                           key=f"C02/{fn}/post", replayer=_replay_kernel(name))
+                           key=f"{chk.prop}/{fn}/post", replayer=_replay_kernel(name))
         elif p.outcome == "raise":
             chk.obligation(f"{fn}/noexcept/path={k}", "noexcept", lambda v=p.value: ("refuted", "pyvc", 0.0, None, f"raises {v}"),
-                           function=fn, key=f"C02/{fn}/noexcept", replayer=_replay_kernel(name))
+                           function=fn, key=f"{chk.prop}/{fn}/noexcept", replayer=_replay_kernel(name))
     if n_post == 0:
         chk.error(f"{fn}: no returning path")
 
